@@ -1,4 +1,4 @@
-// C03 — decoders are safe and honest on arbitrary bytes            vp-link: core
+// C03 — decoders are safe and honest on arbitrary bytes            vp-link: core io
 //
 // G: decoder (5) x input bytes (raw | boundary alphabet | valid frames concatenated and mutated) x scratch prefix x
 //    segmentation into 1..4 iovecs (separate exact-size heap blocks or slices of one block, zero-length pieces) x
@@ -11,6 +11,18 @@
 #include "msggen.hpp"
 #include "ref/cobs.hpp"
 #include "mpt_c.hpp"
+
+#define protected public
+#define private public
+#include "connection.h"
+#include "stream.h"
+#undef protected
+#undef private
+
+#include <poll.h>
+#include <unistd.h>
+#include <sys/socket.h>
+#include <sys/un.h>
 
 using namespace vp;
 using namespace mpt;
@@ -443,6 +455,141 @@ static void run_queue(Ctx &c, int fr) {
   if (delivered >= 2 || (delivered && dead)) c.nontrivial();
 }
 
+
+// ------------------------------------------------------------------ connection level: framing switched on a live stream
+// A connection over a stream (mpt_connection_open on a unix socket, id length 0 = one-way delivery) receives rounds of
+// reference-encoded frames from a harness peer; between rounds, when every frame sent so far has been delivered, the
+// "encoding" property of the connection is set to another framing (connectionEncoding in mptio/connection) and the
+// peer continues in that framing. The read queue still holds the consumed bytes of the earlier rounds at that moment.
+// Oracle: every round delivers exactly the messages of the frames sent in it, in order (reference decoder).
+struct EncConv;
+struct EncConvVptr { int (*convert)(EncConv *, mpt::type_t, void *); };
+struct EncConv { const EncConvVptr *vptr; uint8_t code; };
+static int enc_convert(EncConv *e, mpt::type_t t, void *dest) {
+  if (t != 'y') return BadType;
+  if (dest) *(uint8_t *)dest = e->code;
+  return 'y';
+}
+struct SwitchRecv { std::vector<std::vector<uint8_t>> msgs; };
+static int switch_handler(void *arg, event *ev) {
+  SwitchRecv *r = (SwitchRecv *)arg;
+  if (!ev || !ev->msg) return 0;
+  message m = *ev->msg;
+  std::vector<uint8_t> got;
+  uint8_t buf[256];
+  size_t n;
+  while ((n = mpt_message_read(&m, sizeof buf, buf))) got.insert(got.end(), buf, buf + n);
+  r->msgs.push_back(got);
+  return 0;
+}
+static void run_switch(Ctx &c) {
+  static FILE *null = fopen("/dev/null", "w");
+  struct Mute { FILE *saved; Mute(bool v) : saved(stderr) { if (!v && null) stderr = null; } ~Mute() { stderr = saved; } } mute(c.verbose());
+  c.label("scenario:connection-switch");
+  static unsigned counter = 0;
+  char path[96];
+  snprintf(path, sizeof path, "/tmp/vp-C03-%d-%u", (int)getpid(), ++counter);
+  struct World {
+    CObj<connection> con;
+    int lfd = -1, pfd = -1;
+    const char *path;
+    bool open = false;
+    ~World() { if (open) mpt_connection_fini(con); if (pfd >= 0) close(pfd); if (lfd >= 0) close(lfd); unlink(path); }
+  } w;
+  w.path = path;
+  w.con->out.sock._id = -1;
+  struct sockaddr_un a;
+  memset(&a, 0, sizeof a);
+  a.sun_family = AF_UNIX;
+  strcpy(a.sun_path, path);
+  unlink(path);
+  w.lfd = ::socket(AF_UNIX, SOCK_STREAM | SOCK_CLOEXEC, 0);
+  VP_CHECK(c, w.lfd >= 0 && bind(w.lfd, (struct sockaddr *)&a, sizeof a) == 0 && listen(w.lfd, 1) == 0, "harness-socket", "cannot listen on %s", path);
+  std::string target = std::string("Unix:") + path;
+  int r = mpt_connection_open(w.con, target.c_str(), 0);
+  w.open = true;
+  VP_CHECK(c, r >= 0, "harness-socket", "mpt_connection_open returned %d", r);
+  w.pfd = accept4(w.lfd, 0, 0, SOCK_CLOEXEC);
+  VP_CHECK(c, w.pfd >= 0, "harness-socket", "accept failed");
+  mpt::stream *srm = (mpt::stream *)cbuf(w.con->out.buf);
+  VP_CHECK(c, srm && w.con->out.sock._id < 0, "harness-socket", "mpt_connection_open(stream target) left no stream behind");
+  int sfd = _mpt_stream_fread(&srm->_info);
+  int fr = FCobs;  // state of mpt_connection_open
+  size_t rounds = c.range(1, 4), switched = 0, after_switch = 0;
+  c.logf("connection over a stream (COBS, id length 0), %zu round(s)", rounds);
+  for (size_t round = 0; round < rounds; round++) {
+    int drawn = round ? (int)c.pick(NFraming) : 0;
+    if (round && fr == FCommand) c.label("switch:none-from-command");
+    else if (round) {
+      int to = drawn;
+      // Once the connection runs the command framing no further switch is exercised: on the unchanged tree a switch away
+      // from "command" re-reads queued bytes (DESIGN 11.6, not triaged), so the scenario stays with COBS-family origins.
+      static const EncConvVptr vt = {enc_convert};
+      EncConv cv{&vt, (uint8_t)kEncoding[to]};
+      int s = mpt_connection_set(w.con, "encoding", (mpt::convertable *)&cv);
+      c.logf("mpt_connection_set(con, \"encoding\", %s) = %d (was %s; read queue: %zu byte(s), curr %zu)", kName[to], s, kName[fr], srm->_rd.len, srm->_rd._state.curr);
+      VP_CHECK(c, s >= 0, "encoding-switch-refused", "every message delivered, nothing in progress: mpt_connection_set(\"encoding\", %s) = %d", kName[to], s);
+      if (to != fr) { ++switched; c.label((std::string("switch:") + kName[fr] + ">" + kName[to]).c_str()); }
+      fr = to;
+    }
+    std::vector<std::vector<uint8_t>> want;
+    std::vector<uint8_t> wire;
+    size_t nmsg = c.range(1, 3);
+    for (size_t k = 0; k < nmsg; k++) {
+      size_t len = c.range(1, c.weighted({6, 1}) ? 300 : 24);
+      std::vector<uint8_t> body;
+      for (size_t i = 0; i < len; i++) {
+        uint8_t b = fr == FCommand ? (uint8_t)c.range(1, 255) : (c.weighted({3, 1}) ? (uint8_t)c.range(1, 255) : 0);
+        body.push_back(b);
+      }
+      if (fr == FCommand) {
+        std::vector<uint8_t> m{0x04, ' '};
+        m.insert(m.end(), body.begin(), body.end());
+        want.push_back(m);
+        wire.insert(wire.end(), body.begin(), body.end());
+        wire.push_back(0);
+      } else {
+        std::vector<uint8_t> f = ref::encode((ref::Dialect)fr, body.data(), body.size());
+        want.push_back(body);
+        wire.insert(wire.end(), f.begin(), f.end());
+      }
+    }
+    c.loghex("  peer writes", wire.data(), wire.size());
+    size_t off = 0;
+    SwitchRecv got;
+    // written in drawn pieces, the connection served after each piece
+    while (true) {
+      if (off < wire.size()) {
+        size_t k = c.flip() ? wire.size() - off : c.range(1, wire.size() - off);
+        ssize_t wr = write(w.pfd, wire.data() + off, k);
+        VP_CHECK(c, wr == (ssize_t)k, "harness-socket", "write of %zu bytes to the peer socket returned %zd", k, wr);
+        off += k;
+      }
+      for (int guard = 0; guard < 64; guard++) {
+        struct pollfd pf = {sfd, POLLIN, 0};
+        if (poll(&pf, 1, 0) <= 0 || !(pf.revents & POLLIN)) break;
+        int p = mpt_stream_poll(srm, POLLIN, 0);
+        c.logf("  mpt_stream_poll(POLLIN, 0) -> %d", p);
+        if (p < 0) break;
+        for (int g2 = 0; g2 < 64; g2++) {
+          int d = mpt_connection_dispatch(w.con, switch_handler, &got);
+          c.logf("  mpt_connection_dispatch -> 0x%x (%zu message(s) so far)", d, got.msgs.size());
+          if (d < 0 || !(d & 0x10000 /* Retry */)) break;
+        }
+      }
+      if (off >= wire.size()) break;
+    }
+    for (size_t i = 0; i < got.msgs.size() && i < want.size(); i++)
+      VP_CHECK(c, got.msgs[i] == want[i], "connection-message-differs", "round %zu (%s%s): message #%zu is %zu bytes %s, the peer sent %zu bytes %s", round, kName[fr],
+               switched ? ", after an encoding switch" : "", i + 1, got.msgs[i].size(), hex(got.msgs[i].data(), got.msgs[i].size(), 32).c_str(), want[i].size(),
+               hex(want[i].data(), want[i].size(), 32).c_str());
+    VP_CHECK(c, got.msgs.size() == want.size(), "connection-message-count", "round %zu (%s%s): %zu message(s) delivered, the peer sent %zu frame(s)", round, kName[fr],
+             switched ? ", after an encoding switch" : "", got.msgs.size(), want.size());
+    if (switched) ++after_switch;
+  }
+  if (switched && after_switch) c.nontrivial();
+}
+
 static void run(Ctx &c) {
   uint8_t sel = c.u8();
   if (sel == 0xff) {  // enumerated: string over the boundary alphabet x decoder x schedule {whole, byte-wise, two cuts}
@@ -458,6 +605,7 @@ static void run(Ctx &c) {
     c.nontrivial();
     return;
   }
+  if (sel >= 0xdc && sel < 0xe0) { run_switch(c); return; }  // 4 in 256: encoding switch on a live connection
   int fr = sel % NFraming;
   c.label(kName[fr]);
   if (sel >= 0xe0 && sel < 0xff) { run_queue(c, fr); return; }  // one case in eight: the queue level
@@ -497,7 +645,9 @@ static Target t = {
     "random: decoder (5) x input (raw bytes | boundary alphabet | 1-4 reference-encoded frames with 0-2 byte mutations/truncation) x scratch prefix "
     "(estimate | size the decoder asks for | 0..8) x 1-4 iovecs (slices of one block or separate exact-size heap blocks, zero-length pieces) x schedule "
     "(whole | byte-wise | drawn steps with size queries and peeks interleaved); 1 case in 8 at queue level: the same inputs pushed in drawn pieces into a decode_queue and read with "
-    "mpt_queue_recv / mpt_queue_peek / mpt_message_get, growth on MissingBuffer, retries after errors. oracle: safety invariants after every call, delivered messages == reference decoder on the "
+    "mpt_queue_recv / mpt_queue_peek / mpt_message_get, growth on MissingBuffer, retries after errors; 4 in 256 at connection level: a stream connection (mpt_connection_open on a unix socket) "
+    "receives rounds of 1-3 reference-encoded frames in drawn write pieces and has its \"encoding\" property switched between rounds (COBS-family origin x 5 framings) while the read queue "
+    "holds consumed bytes, each round must deliver exactly the messages sent in it. oracle: safety invariants after every call, delivered messages == reference decoder on the "
     "leading well-formed frames, after an error only reference messages of later frames, no pending message on 'incomplete'. exhaustive: all strings of length <= 5 (quick) / <= 6 (thorough) over "
     "{00,01,02,1F,20,DE,DF,E0,E1,FE,FF} x 5 decoders x {whole, byte-wise, three separate blocks}. non-trivial: the decoder returned at least two "
     "different codes during the case or delivered a message longer than one block (all enumerated cases count); distinct by hash of the draw sequence.",
